@@ -34,6 +34,8 @@ STRENGTHENED = {
  'C15-r4-m3': 'histories for every ordered pair of entities with a path (data to the first, then to the second)',
  'C16-r4-m1': "the oracle knows what was stored: 'sid' must be omitted when the encoder returns None",
  'C16-r4-m2': 'a non-injective encoder (last value) and searches whose results encode alike; GetFromAll count = FindInAll count for types with a Getter',
+ 'C08-r5-m2': 'match() against a fully valued Sid whose last value is an alias',
+ 'C08-r5-m3': 'results asked as Sid objects on searches derived from untypeable (near-miss) entries',
  'C20-r3-m2': 'NOT CAUGHT: needs overlapping key_patterns groups (precedence between them is not a documented convention); see DESIGN.md I.7',
 }
 res = {}
@@ -42,7 +44,7 @@ for line in open(os.path.join(V, 'notes', 'seed_sweep_results.txt')):
         k, v = line.split(' | ', 1)
         res[k.strip()] = v.strip()
 for d in sorted(os.listdir(os.path.join(V, 'seeded'))):
-    if '-r2-' not in d and '-r3-' not in d and '-r4-' not in d:
+    if not any(t in d for t in ('-r2-', '-r3-', '-r4-', '-r5-')):
         continue
     dd = os.path.join(V, 'seeded', d)
     note = open(os.path.join(dd, 'note.txt')).read().strip() if os.path.exists(os.path.join(dd, 'note.txt')) else ''
@@ -51,7 +53,7 @@ for d in sorted(os.listdir(os.path.join(V, 'seeded'))):
     r = res.get(d, 'not run')
     caught = 'VIOLATION' in r
     meta = {
-        'property': prop, 'round': 2 if '-r2-' in d else (3 if '-r3-' in d else 4),
+        'property': prop, 'round': 2 if '-r2-' in d else (3 if '-r3-' in d else (4 if '-r4-' in d else 5)),
         'breaks': note,
         'needs_to_manifest': note.splitlines()[-1] if note else '',
         'confirmed': 'patch applied in a scratch worktree: repository test suite unchanged (46 passed, 1 known failure); demo.py exits 1 with the patch and 0 without',
